@@ -264,7 +264,7 @@ def url_parser_table(prog, chk):
     from ksirules.bufinterp import BufInterp
     from ksirules.interp import inline_model
     chk.rule("C20.parse", "URL parser: every reported field (scheme, user-info, host without brackets, port, path, query, fragment) is exactly "
-                          "that part of the URI, for all host forms with and without embedded credentials", floor=380)
+                          "that part of the URI, for all host forms with and without embedded credentials", floor=570)
     fn = prog.fn("http_parser_parse_url", "http_parser.c")
     bp, lp, cp, up = [p["n"] for p in fn.params]
     K = prog.const
@@ -276,7 +276,9 @@ def url_parser_table(prog, chk):
     ports = ("", ":8080", ":65535") + ((":1",) if deep else ())
     # path, query and fragment are optional independently of each other: all eight combinations (a fragment or a query directly
     # after the authority is where the server states of the parser end)
-    tails = ("", "/p", "?x=1", "#f", "/p?x=1", "/p#f", "?x=1#f", "/p/q?x=1#f") + (("/", "/p?x") if deep else ())
+    tails = ("", "/p", "?x=1", "#f", "/p?x=1", "/p#f", "?x=1#f", "/p/q?x=1#f",
+             # '?' is an ordinary character inside a query or a fragment, also as their first one
+             "/agg??a=b", "/p?x=1?y=2", "/p#?s", "/p#f?g") + (("/", "/p?x", "/p???", "??") if deep else ())
     n = 0
     for sch, ui, host, port, tail in itertools.product(schemes, ("", "anon:s3cr3t@"), hosts, ports, tails):
         url = "%s://%s%s%s%s" % (sch, ui, host, port, tail)
@@ -327,7 +329,7 @@ def url_parser_table(prog, chk):
                 "USERINFO": ui[:-1] or None, "port#": int(port[1:]) if port else 0}
         chk.ob("C20.parse", "parse_url[%s]" % url, q.ret == 0 and got == want,
                "expected %s; source: status %s, %s" % (want, q.ret, got), loc=fn.loc(), fn=fn, nontrivial=(ui != "" and host.startswith("[")))
-    if n < 380:
+    if n < 570:
         raise AnalysisBroken("URL parser table: only %d URLs" % n)
 
 
